@@ -94,6 +94,7 @@ type PathStats struct {
 	WatchObl       int
 	SolverQueries  int
 	SolverFastPath int
+	UnknownMsgs    []string
 }
 
 type Path struct {
@@ -119,6 +120,8 @@ type Path struct {
 	watch      map[string]bool // functions under wrap-around watch
 	watching   int
 	watchAcc   *smt.Term
+	bounds     map[string][2]int64 // declared signed domains of 64-bit variables
+	watchHere  bool                // the instruction being executed belongs to a watched function's own body
 	noMerge    bool
 	existsVars map[string]bool
 	inExists   bool
@@ -349,11 +352,91 @@ func (p *Path) follow(kind byte) (Decision, bool) {
 	return Decision{}, false
 }
 
+// ival returns signed 64-bit bounds of a 64-bit term when they follow from the
+// declared domains of its variables by interval arithmetic (no wrap-around).
+func (p *Path) ival(t *smt.Term) (lo, hi int64, ok bool) {
+	if t.W != 64 {
+		return 0, 0, false
+	}
+	switch t.Kind {
+	case smt.KConst:
+		return int64(t.Val), int64(t.Val), true
+	case smt.KVar:
+		b, ok := p.bounds[t.Name]
+		return b[0], b[1], ok
+	case smt.KAdd:
+		l1, h1, ok1 := p.ival(t.A[0])
+		l2, h2, ok2 := p.ival(t.A[1])
+		if !ok1 || !ok2 {
+			return 0, 0, false
+		}
+		lo, hi = l1+l2, h1+h2
+		// overflow check of both sums
+		if (l2 > 0 && lo < l1) || (l2 < 0 && lo > l1) || (h2 > 0 && hi < h1) || (h2 < 0 && hi > h1) {
+			return 0, 0, false
+		}
+		return lo, hi, true
+	}
+	return 0, 0, false
+}
+
+// decideByBounds decides comparisons whose operands have disjoint / ordered intervals.
+func (p *Path) decideByBounds(c *smt.Term) (val bool, ok bool) {
+	if len(p.bounds) == 0 {
+		return false, false
+	}
+	neg := false
+	if c.Kind == smt.KNot {
+		neg = true
+		c = c.A[0]
+	}
+	switch c.Kind {
+	case smt.KSlt, smt.KSle, smt.KUlt, smt.KUle, smt.KEq:
+	default:
+		return false, false
+	}
+	l1, h1, ok1 := p.ival(c.A[0])
+	l2, h2, ok2 := p.ival(c.A[1])
+	if !ok1 || !ok2 {
+		return false, false
+	}
+	if (c.Kind == smt.KUlt || c.Kind == smt.KUle) && (l1 < 0 || l2 < 0) {
+		return false, false
+	}
+	var r, known bool
+	switch c.Kind {
+	case smt.KSlt, smt.KUlt:
+		if h1 < l2 {
+			r, known = true, true
+		} else if l1 >= h2 {
+			r, known = false, true
+		}
+	case smt.KSle, smt.KUle:
+		if h1 <= l2 {
+			r, known = true, true
+		} else if l1 > h2 {
+			r, known = false, true
+		}
+	case smt.KEq:
+		if h1 < l2 || h2 < l1 {
+			r, known = false, true
+		}
+	}
+	if !known {
+		return false, false
+	}
+	return r != neg, true
+}
+
 // branch is a decision point on a symbolic condition.
 func (p *Path) branch(c *smt.Term) bool {
 	c = p.resolve(c)
 	if c.IsConst() {
 		return c.Val != 0
+	}
+	if v, ok := p.decideByBounds(c); ok {
+		p.stats.SolverFastPath++
+		return v
 	}
 	if p.pcSet[c.ID] {
 		return true
@@ -511,6 +594,7 @@ func (p *Path) check(c *smt.Term, site, msg string) {
 		p.violate("check", msg, m)
 	default:
 		p.stats.ObUnknown++
+		p.stats.UnknownMsgs = append(p.stats.UnknownMsgs, msg)
 	}
 }
 
@@ -563,6 +647,12 @@ func (p *Path) draw(label, kind string, k types.BasicKind, hasDom bool, lo, hi u
 		} else {
 			p.model[name] = 0
 		}
+	}
+	if hasDom && w == 64 && signed && int64(lo) <= int64(hi) {
+		if p.bounds == nil {
+			p.bounds = map[string][2]int64{}
+		}
+		p.bounds[name] = [2]int64{int64(lo), int64(hi)}
 	}
 	if hasDom && w > 0 {
 		c := p.ctx
@@ -644,7 +734,7 @@ func (p *Path) size(v value, max int, what string) int {
 // discharged as a single obligation when the outermost watched call returns
 // or panics (watchFlush).
 func (p *Path) watchCond(ovf *smt.Term, what string) {
-	if p.watching == 0 {
+	if p.watching == 0 || !p.watchHere {
 		return
 	}
 	ovf = p.resolve(ovf)
@@ -671,7 +761,7 @@ func (p *Path) watchFlush() {
 }
 
 func (p *Path) watchArith(op token.Token, x, y *smt.Term, signed bool) {
-	if p.watching == 0 {
+	if p.watching == 0 || !p.watchHere {
 		return
 	}
 	c := p.ctx
